@@ -15,7 +15,8 @@ use serde::{Deserialize, Serialize};
 use serde_json::{json, Value};
 
 fn one_query_case(rng: &mut Rng, single_pct: usize, oracle: OracleCfg, backend: Backend) -> StaticCase {
-    let fw = gen_framework(rng, &GenParams { max_n: 8, allow_removals: true, single_component_pct: single_pct });
+    let max_n = if rng.chance(1, 8) { 10 } else { 8 };
+    let fw = gen_framework(rng, &GenParams { max_n, allow_removals: true, single_component_pct: single_pct });
     let mut store = RefStore::default();
     for u in &fw.ops {
         store.apply(u);
